@@ -11,6 +11,9 @@ SHAPES = {
     "multiline": ["first\nsecond", "a\n\nb\n  c", "tab\there"],
     "blanks": ["  padded  ", "\tlead", "trail \n"],
     "control": ["bell\x07here", "esc\x1b[31mred", "nul\x00byte", "\x7fdel", "cr\rlf"],
+    # text that looks like the notation an encoder writes (escapes of the file format itself, HTML-safe forms, entities)
+    "escapes": ["printf '\\u0026\\n'", "a \\u003c b \\u003e c", "x && y < z > w", "\\u2028 \\u2029", "&amp; &lt; &gt;", "lit \\n \\t \\\\ \\\" end",
+                "\\\\u0026", "50% %s %d", "\u2028real\u2029seps", "\\x1b[0m \\033 \\e"],
     "jsonish": ['{"datetime":"2020","block":"x"}', "}{", '\\u0041', "</script>", "  "],
 }
 BLANK = ["", " ", "\n", " \t "]
